@@ -515,4 +515,255 @@ theorem sectEdges_S2 (cfg : Cfg) (st : RS) (h1 : S1 st) (herr0 : st.err = none) 
           show (countLine cfg.lim (expectKeyword kEDGES .noEdges st)).1.verts.length = (countLine cfg.lim (expectKeyword kEDGES .noEdges st)).1.dV
           rw [hs.verts, hk.verts, hs.dV, hk.dV]; exact h1.verts herr0) rfl rfl
 
+structure S3 (st : RS) : Prop where
+  fault : st.fault = false
+  cells : st.cells = []
+  props : st.props = []
+  ok : st.err = none → st.verts.length = st.dV ∧ st.edges.length = st.dE ∧ st.faces.length = st.dF ∧
+    (∀ e ∈ st.edges, e.1 < st.dV ∧ e.2 < st.dV) ∧ (∀ f ∈ st.faces, ∀ x ∈ f, x < 2 * st.dE)
+
+theorem faceLoop_S3 (cfg : Cfg) (n nHE : Nat) (edges : List (Nat × Nat)) (st0 : RS)
+    (hc : st0.cells = []) (hp : st0.props = []) (hfa : st0.fault = false) (hf : st0.faces = [])
+    (hv : st0.verts.length = st0.dV) (he : st0.edges.length = st0.dE)
+    (hem : ∀ e ∈ st0.edges, e.1 < st0.dV ∧ e.2 < st0.dV)
+    (hd : st0.dF = n) (hE : st0.edges = edges) (hH : nHE = 2 * st0.dE) :
+    S3 { loopN (faceStep cfg edges nHE) n 0 st0 with faces := (loopN (faceStep cfg edges nHE) n 0 st0).faces.reverse } := by
+  subst hE hH
+  have hle : 2 * st0.dE ≤ 2 * st0.edges.length := by omega
+  have hinv := loopN_inv (faceStep cfg st0.edges (2 * st0.dE))
+    (fun st => st.cells = [] ∧ st.props = [] ∧ st.fault = false ∧ st.verts = st0.verts ∧ st.edges = st0.edges ∧
+      st.dV = st0.dV ∧ st.dE = st0.dE ∧ st.dF = n ∧ ∀ f ∈ st.faces, ∀ x ∈ f, x < 2 * st0.dE)
+    (fun i st h => by
+      obtain ⟨a1, a2, a3, a4, a5, a6, a7⟩ := faceStep_facts cfg st0.edges (2 * st0.dE) i st
+      exact ⟨a3.trans h.1, a4.trans h.2.1, (faceStep_fault cfg _ _ i st hle).trans h.2.2.1, a1.trans h.2.2.2.1,
+        a2.trans h.2.2.2.2.1, a5.trans h.2.2.2.2.2.1, a6.trans h.2.2.2.2.2.2.1, a7.trans h.2.2.2.2.2.2.2.1,
+        faceStep_mem cfg _ _ i st h.2.2.2.2.2.2.2.2⟩)
+    n 0 st0 ⟨hc, hp, hfa, rfl, rfl, rfl, rfl, hd, by rw [hf]; simp⟩
+  have hcnt := loopN_count (faceStep cfg st0.edges (2 * st0.dE)) (fun st => st.faces.length)
+    (fun i st h => faceStep_len cfg _ _ i st h) n 0 st0
+  refine ⟨hinv.2.2.1, hinv.1, hinv.2.1, ?_⟩
+  intro herr
+  have h2 := hcnt herr
+  refine ⟨?_, ?_, ?_, ?_, ?_⟩
+  · show (loopN (faceStep cfg st0.edges (2 * st0.dE)) n 0 st0).verts.length = (loopN (faceStep cfg st0.edges (2 * st0.dE)) n 0 st0).dV
+    rw [hinv.2.2.2.1, hinv.2.2.2.2.2.1]; exact hv
+  · show (loopN (faceStep cfg st0.edges (2 * st0.dE)) n 0 st0).edges.length = (loopN (faceStep cfg st0.edges (2 * st0.dE)) n 0 st0).dE
+    rw [hinv.2.2.2.2.1, hinv.2.2.2.2.2.2.1]; exact he
+  · show (loopN (faceStep cfg st0.edges (2 * st0.dE)) n 0 st0).faces.reverse.length = (loopN (faceStep cfg st0.edges (2 * st0.dE)) n 0 st0).dF
+    rw [List.length_reverse, h2, hf, hinv.2.2.2.2.2.2.2.1]; simp
+  · show ∀ e ∈ (loopN (faceStep cfg st0.edges (2 * st0.dE)) n 0 st0).edges,
+        e.1 < (loopN (faceStep cfg st0.edges (2 * st0.dE)) n 0 st0).dV ∧ e.2 < (loopN (faceStep cfg st0.edges (2 * st0.dE)) n 0 st0).dV
+    rw [hinv.2.2.2.2.1, hinv.2.2.2.2.2.1]; exact hem
+  · intro f hm
+    have hm' : f ∈ (loopN (faceStep cfg st0.edges (2 * st0.dE)) n 0 st0).faces := by simpa using hm
+    show ∀ x ∈ f, x < 2 * (loopN (faceStep cfg st0.edges (2 * st0.dE)) n 0 st0).dE
+    rw [hinv.2.2.2.2.2.2.1]
+    exact hinv.2.2.2.2.2.2.2.2 f hm'
+
+theorem sectFaces_S3 (cfg : Cfg) (st : RS) (h2 : S2 st) (herr0 : st.err = none) : S3 (sectFaces cfg st) := by
+  have hk := expectKeyword_same kFACES .noFaces st
+  obtain ⟨o1, o2, o3⟩ := h2.ok herr0
+  unfold sectFaces
+  simp only
+  split
+  · rename_i herr
+    exact ⟨hk.fault.trans h2.fault, hk.cells.trans h2.cells, hk.props.trans h2.props,
+      fun h => by rw [h] at herr; simp at herr⟩
+  · have hs := countLine_same cfg.lim (expectKeyword kFACES .noFaces st)
+    split
+    · rename_i herr
+      exact ⟨hs.fault.trans (hk.fault.trans h2.fault), hs.cells.trans (hk.cells.trans h2.cells),
+        hs.props.trans (hk.props.trans h2.props), fun h => by rw [h] at herr; simp at herr⟩
+    · refine faceLoop_S3 cfg _ _ _ _ (hs.cells.trans (hk.cells.trans h2.cells)) (hs.props.trans (hk.props.trans h2.props))
+        (hs.fault.trans (hk.fault.trans h2.fault)) (hs.faces.trans (hk.faces.trans h2.faces)) ?_ ?_ ?_ rfl rfl rfl
+      · show (countLine cfg.lim (expectKeyword kFACES .noFaces st)).1.verts.length = (countLine cfg.lim (expectKeyword kFACES .noFaces st)).1.dV
+        rw [hs.verts, hk.verts, hs.dV, hk.dV]; exact o1
+      · show (countLine cfg.lim (expectKeyword kFACES .noFaces st)).1.edges.length = (countLine cfg.lim (expectKeyword kFACES .noFaces st)).1.dE
+        rw [hs.edges, hk.edges, hs.dE, hk.dE]; exact o2
+      · show ∀ e ∈ (countLine cfg.lim (expectKeyword kFACES .noFaces st)).1.edges,
+          e.1 < (countLine cfg.lim (expectKeyword kFACES .noFaces st)).1.dV ∧ e.2 < (countLine cfg.lim (expectKeyword kFACES .noFaces st)).1.dV
+        rw [hs.edges, hk.edges, hs.dV, hk.dV]; exact o3
+
+/-- what `readStream` has established when the topology sections are through -/
+structure S4 (st : RS) : Prop where
+  fault : st.fault = false
+  props : st.props = []
+  ok : st.err = none →
+    (∀ e ∈ st.edges, e.1 < st.verts.length ∧ e.2 < st.verts.length) ∧
+    (∀ f ∈ st.faces, ∀ x ∈ f, x < 2 * st.edges.length) ∧
+    (∀ c ∈ st.cells, ∀ x ∈ c, x < 2 * st.faces.length)
+
+theorem cellLoop_S4 (cfg : Cfg) (hk : HexOK cfg) (n nHF : Nat) (faces : List (List Nat)) (st0 : RS)
+    (hp : st0.props = []) (hfa : st0.fault = false) (hc : st0.cells = [])
+    (hv : st0.verts.length = st0.dV) (he : st0.edges.length = st0.dE) (hf : st0.faces.length = st0.dF)
+    (hem : ∀ e ∈ st0.edges, e.1 < st0.dV ∧ e.2 < st0.dV) (hfm : ∀ f ∈ st0.faces, ∀ x ∈ f, x < 2 * st0.dE)
+    (hF : st0.faces = faces) (hH : nHF = 2 * st0.dF) :
+    S4 { loopN (cellStep cfg faces nHF) n 0 st0 with cells := (loopN (cellStep cfg faces nHF) n 0 st0).cells.reverse } := by
+  subst hF hH
+  have hle : 2 * st0.dF ≤ 2 * st0.faces.length := by omega
+  have hinv := loopN_inv (cellStep cfg st0.faces (2 * st0.dF))
+    (fun st => st.props = [] ∧ st.fault = false ∧ st.verts = st0.verts ∧ st.edges = st0.edges ∧ st.faces = st0.faces ∧
+      ∀ c ∈ st.cells, ∀ x ∈ c, x < 2 * st0.dF)
+    (fun i st h => by
+      obtain ⟨a1, a2, a3, a4, _, _, _⟩ := cellStep_facts cfg st0.faces (2 * st0.dF) i st
+      exact ⟨a4.trans h.1, (cellStep_fault cfg hk _ _ i st hle).trans h.2.1, a1.trans h.2.2.1, a2.trans h.2.2.2.1,
+        a3.trans h.2.2.2.2.1, cellStep_mem cfg hk _ _ i st h.2.2.2.2.2⟩)
+    n 0 st0 ⟨hp, hfa, rfl, rfl, rfl, by rw [hc]; simp⟩
+  refine ⟨hinv.2.1, hinv.1, ?_⟩
+  intro _
+  refine ⟨?_, ?_, ?_⟩
+  · show ∀ e ∈ (loopN (cellStep cfg st0.faces (2 * st0.dF)) n 0 st0).edges,
+        e.1 < (loopN (cellStep cfg st0.faces (2 * st0.dF)) n 0 st0).verts.length ∧
+        e.2 < (loopN (cellStep cfg st0.faces (2 * st0.dF)) n 0 st0).verts.length
+    rw [hinv.2.2.1, hinv.2.2.2.1, hv]; exact hem
+  · show ∀ f ∈ (loopN (cellStep cfg st0.faces (2 * st0.dF)) n 0 st0).faces,
+        ∀ x ∈ f, x < 2 * (loopN (cellStep cfg st0.faces (2 * st0.dF)) n 0 st0).edges.length
+    rw [hinv.2.2.2.1, hinv.2.2.2.2.1, he]; exact hfm
+  · intro c hm
+    have hm' : c ∈ (loopN (cellStep cfg st0.faces (2 * st0.dF)) n 0 st0).cells := by simpa using hm
+    show ∀ x ∈ c, x < 2 * (loopN (cellStep cfg st0.faces (2 * st0.dF)) n 0 st0).faces.length
+    rw [hinv.2.2.2.2.1, hf]
+    exact hinv.2.2.2.2.2 c hm'
+
+theorem sectCells_S4 (cfg : Cfg) (hx : HexOK cfg) (st : RS) (h3 : S3 st) (herr0 : st.err = none) : S4 (sectCells cfg st) := by
+  have hk := expectKeyword_same kPOLYHEDRA .noCells st
+  obtain ⟨o1, o2, o3, o4, o5⟩ := h3.ok herr0
+  unfold sectCells
+  simp only
+  split
+  · rename_i herr
+    exact ⟨hk.fault.trans h3.fault, hk.props.trans h3.props, fun h => by rw [h] at herr; simp at herr⟩
+  · have hs := countLine_same cfg.lim (expectKeyword kPOLYHEDRA .noCells st)
+    split
+    · rename_i herr
+      exact ⟨hs.fault.trans (hk.fault.trans h3.fault), hs.props.trans (hk.props.trans h3.props),
+        fun h => by rw [h] at herr; simp at herr⟩
+    · refine cellLoop_S4 cfg hx _ _ _ _ (hs.props.trans (hk.props.trans h3.props))
+        (hs.fault.trans (hk.fault.trans h3.fault)) (hs.cells.trans (hk.cells.trans h3.cells)) ?_ ?_ ?_ ?_ ?_ rfl rfl
+      · show (countLine cfg.lim (expectKeyword kPOLYHEDRA .noCells st)).1.verts.length = (countLine cfg.lim (expectKeyword kPOLYHEDRA .noCells st)).1.dV
+        rw [hs.verts, hk.verts, hs.dV, hk.dV]; exact o1
+      · show (countLine cfg.lim (expectKeyword kPOLYHEDRA .noCells st)).1.edges.length = (countLine cfg.lim (expectKeyword kPOLYHEDRA .noCells st)).1.dE
+        rw [hs.edges, hk.edges, hs.dE, hk.dE]; exact o2
+      · show (countLine cfg.lim (expectKeyword kPOLYHEDRA .noCells st)).1.faces.length = (countLine cfg.lim (expectKeyword kPOLYHEDRA .noCells st)).1.dF
+        rw [hs.faces, hk.faces, hs.dF, hk.dF]; exact o3
+      · show ∀ e ∈ (countLine cfg.lim (expectKeyword kPOLYHEDRA .noCells st)).1.edges,
+          e.1 < (countLine cfg.lim (expectKeyword kPOLYHEDRA .noCells st)).1.dV ∧ e.2 < (countLine cfg.lim (expectKeyword kPOLYHEDRA .noCells st)).1.dV
+        rw [hs.edges, hk.edges, hs.dV, hk.dV]; exact o4
+      · show ∀ f ∈ (countLine cfg.lim (expectKeyword kPOLYHEDRA .noCells st)).1.faces,
+          ∀ x ∈ f, x < 2 * (countLine cfg.lim (expectKeyword kPOLYHEDRA .noCells st)).1.dE
+        rw [hs.faces, hk.faces, hs.dE, hk.dE]; exact o5
+
+/-! ### `Err.fuel` is not produced before the property loop -/
+
+def NoFuel (st : RS) : Prop := st.err ≠ some .fuel
+
+theorem expectKeyword_nofuel (kwd : Str) (e : Err) (he : e ≠ .fuel) (st : RS) (h : NoFuel st) :
+    NoFuel (expectKeyword kwd e st) := by
+  unfold expectKeyword NoFuel
+  simp only
+  split
+  · simp; exact he
+  · exact h
+
+theorem countLine_nofuel (lim : Nat) (st : RS) (h : NoFuel st) : NoFuel (countLine lim st).1 := by
+  unfold countLine NoFuel
+  simp only
+  split
+  · simp
+  · exact h
+
+theorem vertStep_nofuel (i : Nat) (st : RS) (h : NoFuel st) : NoFuel (vertStep i st) := by
+  unfold NoFuel; rw [(vertStep_facts i st).2.2.2.2.2.1]; exact h
+
+theorem edgeStep_nofuel (nV i : Nat) (st : RS) (h : NoFuel st) : NoFuel (edgeStep nV i st) := by
+  unfold edgeStep NoFuel
+  simp only
+  split
+  · simp
+  · exact h
+
+theorem faceStep_nofuel (cfg : Cfg) (edges : List (Nat × Nat)) (nHE i : Nat) (st : RS) (h : NoFuel st) :
+    NoFuel (faceStep cfg edges nHE i st) := by
+  unfold faceStep NoFuel
+  simp only
+  split
+  · simp
+  · split
+    · simp
+    · split
+      · simp
+      · split
+        · exact h
+        · simp
+        · simp
+
+theorem cellStep_nofuel (cfg : Cfg) (faces : List (List Nat)) (nHF i : Nat) (st : RS) (h : NoFuel st) :
+    NoFuel (cellStep cfg faces nHF i st) := by
+  unfold cellStep NoFuel
+  simp only
+  split
+  · simp
+  · split
+    · simp
+    · split
+      · exact h
+      · simp
+      · simp
+
+theorem nofuel_of_err_eq (a b : RS) (h : a.err = b.err) (hb : NoFuel b) : NoFuel a := by
+  unfold NoFuel at *; rw [h]; exact hb
+
+theorem headerPrefix_nofuel (input : Str) : NoFuel (headerPrefix input) := by
+  unfold headerPrefix NoFuel
+  simp only
+  split
+  · simp
+  · split <;> split <;> simp [RS.nextLine]
+
+theorem sectHeader_nofuel (cfg : Cfg) (input : Str) : NoFuel (sectHeader cfg input) := by
+  unfold sectHeader
+  simp only
+  split
+  · exact headerPrefix_nofuel input
+  · split
+    · exact countLine_nofuel _ _ (headerPrefix_nofuel input)
+    · exact nofuel_of_err_eq _ (loopN vertStep _ 0 _) rfl
+        (loopN_inv vertStep NoFuel vertStep_nofuel _ _ _
+          (nofuel_of_err_eq _ (countLine cfg.lim (headerPrefix input)).1 rfl (countLine_nofuel _ _ (headerPrefix_nofuel input))))
+
+theorem sectEdges_nofuel (cfg : Cfg) (st : RS) (h : NoFuel st) : NoFuel (sectEdges cfg st) := by
+  have hk := expectKeyword_nofuel kEDGES .noEdges (fun hc => Err.noConfusion hc) st h
+  unfold sectEdges
+  simp only
+  split
+  · exact hk
+  · split
+    · exact countLine_nofuel _ _ hk
+    · exact nofuel_of_err_eq _ (loopN (edgeStep _) _ 0 _) rfl
+        (loopN_inv _ NoFuel (edgeStep_nofuel _) _ _ _
+          (nofuel_of_err_eq _ (countLine cfg.lim (expectKeyword kEDGES .noEdges st)).1 rfl (countLine_nofuel _ _ hk)))
+
+theorem sectFaces_nofuel (cfg : Cfg) (st : RS) (h : NoFuel st) : NoFuel (sectFaces cfg st) := by
+  have hk := expectKeyword_nofuel kFACES .noFaces (fun hc => Err.noConfusion hc) st h
+  unfold sectFaces
+  simp only
+  split
+  · exact hk
+  · split
+    · exact countLine_nofuel _ _ hk
+    · exact nofuel_of_err_eq _ (loopN (faceStep _ _ _) _ 0 _) rfl
+        (loopN_inv _ NoFuel (faceStep_nofuel _ _ _) _ _ _
+          (nofuel_of_err_eq _ (countLine cfg.lim (expectKeyword kFACES .noFaces st)).1 rfl (countLine_nofuel _ _ hk)))
+
+theorem sectCells_nofuel (cfg : Cfg) (st : RS) (h : NoFuel st) : NoFuel (sectCells cfg st) := by
+  have hk := expectKeyword_nofuel kPOLYHEDRA .noCells (fun hc => Err.noConfusion hc) st h
+  unfold sectCells
+  simp only
+  split
+  · exact hk
+  · split
+    · exact countLine_nofuel _ _ hk
+    · exact nofuel_of_err_eq _ (loopN (cellStep _ _ _) _ 0 _) rfl
+        (loopN_inv _ NoFuel (cellStep_nofuel _ _ _) _ _ _ (countLine_nofuel _ _ hk))
+
 end OVM.Ascii
